@@ -8,6 +8,7 @@ mod eng_client;
 mod eng_daemon;
 mod eng_gpu;
 mod eng_kern;
+mod eng_listen;
 mod eng_sender;
 mod eng_sticky;
 mod eng_server;
@@ -99,6 +100,10 @@ fn main() {
         "sender" => {
             let cases = read_cases(&arg(&args, "--cases").expect("--cases"));
             eng_sender::run(&cases, &mut trace, seed);
+        }
+        "listen" => {
+            let cases = read_cases(&arg(&args, "--cases").expect("--cases"));
+            eng_listen::run(&cases, &mut trace, seed);
         }
         "session" => {
             let cases = read_cases(&arg(&args, "--cases").expect("--cases"));
